@@ -210,9 +210,9 @@ fn exec<B: Backend>(p: P, keys: &Keys) -> ExecEnd {
         let model = Arc::clone(&model);
         let n = p.reader_ops;
         hs.push(shuttle::thread::spawn(move || {
-            let client = Client::new(st);
-            let mut seal_ctx: Vec<Option<<B::R as AfcState>::SealCtx>> = chans.iter().map(|_| None).collect();
-            let mut open_ctx: Vec<Option<<B::R as AfcState>::OpenCtx>> = chans.iter().map(|_| None).collect();
+            let client = sim::Leaky::new(Client::new(st));
+            let mut seal_ctx: sim::Leaky<Vec<Option<<B::R as AfcState>::SealCtx>>> = sim::Leaky::new(chans.iter().map(|_| None).collect());
+            let mut open_ctx: sim::Leaky<Vec<Option<<B::R as AfcState>::OpenCtx>>> = sim::Leaky::new(chans.iter().map(|_| None).collect());
             // a shm seal context that reported NotFound is invalidated
             let mut invalidated = vec![false; chans.len()];
             // one seal context per channel, ever
